@@ -633,6 +633,9 @@ func parentMain(propID, tier string, seed uint64, outPath string, only *WireCase
 		}
 		if len(unlisted) > 0 {
 			nViol++
+			// a failure of the property itself (anything but a model/code disagreement) names the
+			// violation: such cases must not be crowded out by more frequent correspondence failures
+			sort.SliceStable(unlisted, func(i, j int) bool { return unlisted[i].Kind != "corr" && unlisted[j].Kind == "corr" })
 			sig := unlisted[0].Kind + "/" + unlisted[0].Check + " " + unlisted[0].Entry
 			sigCount[sig]++
 			if sigCount[sig] <= 3 && len(res.Violations) < 40 {
